@@ -239,5 +239,7 @@ PROPS["C18"] = {
     "jobs": [
         {"name": "inflight", "pkg": "region", "entry": "VerifInFlight", "stubs": RECV_STUBS, "reach": ["idle", "waiting"],
          "params": {"quick": {"CALLS": 2}, "thorough": {"CALLS": 3}}},
+        {"name": "inflight_concurrent", "pkg": "region", "entry": "VerifInFlightConcurrent", "stubs": RECV_STUBS, "reach": ["waiting"],
+         "preempts": {"quick": 2, "thorough": 3}, "params": {"quick": {}, "thorough": {}}},
     ],
 }
